@@ -530,6 +530,21 @@ func tcRunCase(id string, in tcInput) (c Case, err error) {
 			var ok bool
 			if m2, ok = msgs[0].(*evmtypes.MsgEthereumTx); !ok {
 				step = fmt.Sprintf("decoded message is %T", msgs[0])
+				return
+			}
+			// the JSON form of the same Cosmos transaction (REST / CLI path)
+			jz, err := cfg.TxJSONEncoder()(built)
+			if err != nil {
+				step = "TxJSONEncoder: " + err.Error()
+				return
+			}
+			jtx, err := cfg.TxJSONDecoder()(jz)
+			if err != nil {
+				step = "TxJSONDecoder: " + err.Error()
+				return
+			}
+			if jm, ok := jtx.GetMsgs()[0].(*evmtypes.MsgEthereumTx); !ok || jm.AsTransaction().Hash() != tx.Hash() || jm.Hash != tx.Hash().Hex() {
+				step = "the JSON round trip of the Cosmos transaction changes the Ethereum transaction"
 			}
 		})
 		if pan != "" {
